@@ -49,6 +49,14 @@ static const char* cls_i(T a, T, T)
 #define EQ [](T g, T e) { return g == e; }
 #define CV(op, ar, expr, refexpr) \
     check_val<T, T>(VH_ST("C07", op), VH_ST("C13", op), ar, in, LAM3(expr), REF3((T)(refexpr)), REF3(true), EQ, cls_i<T>, it)
+// rotations: the input class is the signedness of the element type (known finding F2 covers every signed type)
+template <class T>
+static const char* cls_rot(T, T, T)
+{
+    return std::is_signed<T>::value ? "signed_element_type" : "unclassified";
+}
+#define CVR(op, ar, expr, refexpr) \
+    check_val<T, T>(VH_ST("C07", op), VH_ST("C13", op), ar, in, LAM3(expr), REF3((T)(refexpr)), REF3(true), EQ, cls_rot<T>, it)
 
 // in.c holds per-lane counts in [0,BITS)
 template <class T>
@@ -69,8 +77,8 @@ static void lane_ops(const Ops<T>& in, long it)
     CV("shr_lanes", 3, va >> vc, MM::shr(x, (int)z));
     CV("xs_lshift_lanes", 3, xs::bitwise_lshift(va, vc), MM::shl(x, (int)z));
     CV("xs_rshift_lanes", 3, xs::bitwise_rshift(va, vc), MM::shr(x, (int)z));
-    CV("rotl_lanes", 3, xs::rotl(va, vc), MM::rotl(x, (int)z));
-    CV("rotr_lanes", 3, xs::rotr(va, vc), MM::rotr(x, (int)z));
+    CVR("rotl_lanes", 3, xs::rotl(va, vc), MM::rotl(x, (int)z));
+    CVR("rotr_lanes", 3, xs::rotr(va, vc), MM::rotr(x, (int)z));
 }
 
 // scalar count k applied to all lanes
@@ -95,8 +103,8 @@ static void count_ops(const Ops<T>& in, int k, long it)
         CV("shr", 3, va >> (int)vc.get(0), MM::shr(x, (int)z));
         CV("xs_lshift", 3, xs::bitwise_lshift(va, (int)vc.get(0)), MM::shl(x, (int)z));
         CV("xs_rshift", 3, xs::bitwise_rshift(va, (int)vc.get(0)), MM::shr(x, (int)z));
-        CV("rotl", 3, xs::rotl(va, (int)vc.get(0)), MM::rotl(x, (int)z));
-        CV("rotr", 3, xs::rotr(va, (int)vc.get(0)), MM::rotr(x, (int)z));
+        CVR("rotl", 3, xs::rotl(va, (int)vc.get(0)), MM::rotl(x, (int)z));
+        CVR("rotr", 3, xs::rotr(va, (int)vc.get(0)), MM::rotr(x, (int)z));
     }
 }
 
